@@ -29,7 +29,10 @@ RULE = ("chunk_get: every entry of a reply catalogue (right content, other chunk
         "variants that carry a record (NotEnoughCopies, RecordDoesNotMatch); owner-signed versions reaching the "
         "client unmerged with every relation between counter, data_encoding and ciphertext order; a kad-level family "
         "where the holders' answers arrive as FoundRecord events at a real client-mode SwarmDriver (stale quorum next "
-        "to a newer version, lying majorities, fewer answers than a majority, repeated peers, every terminating event) "
+        "to a newer version, lying majorities, fewer answers than a majority, repeated peers, every terminating event, "
+        "a second concurrent reader of the same vault joining while the query is in flight); whole-data reads of contents "
+        "with repeated chunk-aligned blocks (identical thirds, zero-filled regions, aab/aba/aaaab block patterns on the "
+        "MAX_CHUNK_SIZE=1024 build) from honest and tampering holders "
         "maps of 1, 2 (exhaustive) and 3 (sampled; exhaustive in the thorough tier) versions, plus network "
         "errors; whole-data reads with substituted / flipped / truncated / re-kinded / missing chunks and "
         "data maps.  A case is distinct/non-trivial by (op, shape of the reply, outcome)")
@@ -419,15 +422,56 @@ def gen_kad(rng, tier):
         [fnd(1, A), fnd(1, A), fnd(1, A), fin()], [fnd(1, FORGED), fnd(1, FORGED), fnd(1, FORGED), fnd(2, A), fin()],
         [fin("notfound")], [fin("timeout")], [fin("quorumfailed")], [fnd(1, A), fin("quorumfailed")], [],
     ]
+    # a second reader of the same vault arrives while the first read's query is in flight
+    rd2 = {"e": "read2"}
+    scripts += [
+        [fnd(0, B), fnd(1, A), fnd(2, A), rd2, fnd(3, A)],          # stale copy held by more peers, newer one received
+        [fnd(0, B), fnd(1, A), fnd(2, A), rd2, fin()],
+        [fnd(0, B), fnd(1, A), rd2, fnd(2, A), fnd(3, A)],
+        [fnd(1, A), fnd(2, A), rd2, fnd(0, B), fnd(3, A)],
+        [fnd(1, A), rd2, fnd(2, A), fnd(3, A)],
+        [fnd(1, FORGED), fnd(2, FORGED), rd2, fnd(0, A), fin()],    # the cached majority copy is forged
+        [fnd(1, EMPTY), fnd(2, EMPTY), rd2, fnd(0, A), fin()],
+        [fnd(1, FOREIGN), rd2, fin()],
+        [rd2, fnd(1, A), fnd(2, A), fnd(3, A)],
+        [fnd(0, B), fnd(4, M), fnd(1, A), fnd(2, A), rd2, fin("timeout")],
+    ]
+    n_scripted = len(scripts)
     n_rand = 120 if tier == "quick" else 1500
     for _ in range(n_rand):
         k = rng.choice([1, 2, 3, 4, 5, 6, 7])
         ev = [fnd(rng.randrange(6), rng.choice([A, A, B, B, M, FORGED, FOREIGN, UNSIGNED, EMPTY, 7, 8, 9])) for _ in range(k)]
+        if rng.random() < 0.5 and len(ev) >= 2:
+            ev.insert(rng.randrange(1, len(ev) + 1), {"e": "read2"})
         if rng.random() < 0.6:
             ev.append(fin(rng.choice(["finished", "finished", "notfound", "timeout", "quorumfailed"])))
         scripts.append(ev)
-    return [{"op": "vault_kad", "kind": "vault_kad/%s" % ("scripted" if i < 29 else "random"), "owner": OWNER,
+    return [{"op": "vault_kad", "kind": "vault_kad/%s" % ("scripted" if i < n_scripted else "random"), "owner": OWNER,
              "recs": pool, "events": ev} for i, ev in enumerate(scripts)]
+
+
+def gen_repeated(rng, tier, build):
+    """contents with repeated chunk-aligned blocks: the data map then names one encrypted chunk several times.
+    Honest holders (and a few tampering ones): what comes back for the address must be exactly what was stored."""
+    cases = []
+    if build == "default":
+        specs = [{"len": n, "fill": f} for n in (3, 6, 30, 300, 3000, 30000) for f in ("zero", "rep3")]
+        specs += [{"len": n, "fill": "zero"} for n in (4, 3001, 5 * 1048576, 4 * 1048576 + 17)]
+        if tier != "quick":
+            specs += [{"len": 7 * 1048576, "fill": "zero"}, {"len": 3 * 1048576, "fill": "rep3"}]
+    else:
+        M = 1024
+        pats = ["aaa", "aab", "aba", "baa", "aaaa", "aaaab", "baaaa", "aaaaab", "abaaaab", "aaaabaaaa", "aaaaaaaaaaaa"]
+        specs = [{"fill": "blocks", "pattern": p, "block": M, "len": len(p) * M} for p in pats]
+        specs += [{"fill": "blocks", "pattern": p, "block": M // 3, "len": len(p) * (M // 3)} for p in ("aaa", "aab", "aba")]
+        specs += [{"len": n, "fill": "zero"} for n in (3 * M, 8 * M, 8 * M + 5, 40 * M)]
+    for sp in specs:
+        for mode in ("public", "private"):
+            tps = [[]] + ([[{"target": 1, "with": {"t": "flip", "at": 0, "bit": 0}}]] if sp["len"] <= 30000 and mode == "public" else [])
+            for tp in tps:
+                cases.append(dict(sp, op="data", kind="data/%s/%s/repeated-%s" % (build, mode, "honest" if not tp else "flip"),
+                                  seed=rng.randrange(1, 10 ** 6), mode=mode, order_seed=rng.randrange(0, 50), tamper=tp, build=build))
+    return cases
 
 
 def gen(ctx):
@@ -435,6 +479,7 @@ def gen(ctx):
     cases = gen_chunk_get(rng, 6 if ctx.tier == "quick" else 30)
     cases += gen_vault(rng, ctx.tier)
     cases += gen_data(rng, ctx.tier)
+    cases += gen_repeated(rng, ctx.tier, "default")
     cases += gen_kad(rng, ctx.tier)
     return cases
 
@@ -477,18 +522,29 @@ def oracle(c, o):
         # scratchpad version may be newer than the one handed back
         f, p = o["fetch"], o["pad"]
         by_enc = {r["body"].get("encoding"): r["body"] for r in c["recs"] if r["t"] == "rec" and r["body"]["t"] == "pad"}
-        for k, (what, enc) in enumerate((("fetch_and_decrypt_vault", f.get("encoding") if f["res"] == "ok" else None),
-                                         ("get_vault_from_network", p.get("encoding") if p["res"] == "ok" and not p.get("is_new") else None))):
-            if enc is None or enc not in by_enc or k >= len(o.get("delivered", [])):
+        r2 = o.get("reader2")
+        readers = [("fetch_and_decrypt_vault", f.get("encoding") if f["res"] == "ok" else None, (o.get("delivered") or [[]])[0]),
+                   ("get_vault_from_network", p.get("encoding") if p["res"] == "ok" and not p.get("is_new") else None,
+                    (o.get("delivered") or [[], []])[1] if len(o.get("delivered", [])) > 1 else None)]
+        if r2:
+            # the second, concurrent reader is judged like the first: generic authenticity clauses on what was
+            # delivered to it, and nothing newer delivered before ITS answer
+            syn2 = kad_synth(c, dict(o, observed=[r2["observed"]], fetch=r2["fetch"]), 0)
+            if syn2:
+                v += [(cl, "second concurrent reader: " + d) for cl, d in oracle(syn2[0], dict(syn2[1], pad={"res": "ok", "is_new": True}, no_pad=True))]
+            readers.append(("second concurrent fetch_and_decrypt_vault", r2["fetch"].get("encoding") if r2["fetch"]["res"] == "ok" else None,
+                            r2["delivered"]))
+        for what, enc, deliv in readers:
+            if enc is None or enc not in by_enc or deliv is None:
                 continue
             got = by_enc[enc]["counter"]
-            seen = [c["recs"][c["events"][ei]["rec"]] for ei in o["delivered"][k] if c["events"][ei]["e"] == "found"]
+            seen = [c["recs"][c["events"][ei]["rec"]] for ei in deliv if c["events"][ei]["e"] == "found"]
             best = [r["body"]["counter"] for r in seen
                     if r["t"] == "rec" and r.get("kind") == KIND_PAD and pad_is_authentic(r["body"], owner)
                     and r.get("key", "requested") == "requested"]
             if best and got < max(best):
                 v.append(("vault-not-highest", "%s returned the version with counter %d although the holders had delivered an "
-                          "authentic version with counter %d before the query completed (events %s)"
+                          "authentic version with counter %d before its answer was produced (events %s)"
                           % (what, got, max(best), [(e["e"], e.get("peer"), e.get("rec")) for e in c["events"]])))
         return v
     if c["op"] == "vault":
@@ -540,7 +596,7 @@ def oracle(c, o):
         # honest holders: a single well-formed authentic version, or a split of well-formed authentic versions
         all_honest = c["reply"]["t"] in ("rec", "split") and recs and all(r["t"] == "rec" and r.get("kind") == KIND_PAD and pad_is_authentic(r["body"], owner)
                                   and r.get("key", "requested") == "requested" for _, r in recs)
-        if all_honest:
+        if all_honest and not o.get("no_pad"):
             top = max(r["body"]["counter"] for _, r in recs)
             if not (p["res"] == "ok" and not p["is_new"] and p["counter"] == top):
                 v.append(("honest-vault-rejected", "only authentic versions were received (highest counter %d) but the "
@@ -551,8 +607,10 @@ def oracle(c, o):
             return [("encrypt-failed", "encrypt failed on %d bytes: %s" % (c.get("len", -1), o))]
         g = o["get"]
         if g["res"] == "ok" and not g["eq"]:
-            v.append(("data-substituted", "%s read returned Ok with bytes different from the uploaded data (tamper %s)"
-                      % (c["mode"], c.get("tamper"))))
+            v.append(("data-substituted", "%s read of %d stored bytes (%s) returned Ok with %s bytes that are not the stored data "
+                      "(so they do not hash to the requested address); %s"
+                      % (c["mode"], o.get("data_len", c.get("len", -1)), c.get("fill"), g.get("len"),
+                         ("holders tampered: %s" % c["tamper"]) if c.get("tamper") else "all holders honest")))
         harmless = all(t["with"]["t"] == "chunk_of" and t["target"] == t["with"]["i"] and not t["with"].get("own_key")
                        for t in c.get("tamper", []))
         if harmless and g["res"] != "ok":
@@ -640,7 +698,16 @@ def model_term(c, o):
         if a is None or b is None:
             return None
         ta, tb = vault_terms(*a), vault_terms(*b)
-        return None if ta is None or tb is None else "%s && %s" % (ta[0], tb[1])
+        if ta is None or tb is None:
+            return None
+        terms = [ta[0], tb[1]]
+        r2 = o.get("reader2")
+        if r2:
+            a2 = kad_synth(c, dict(o, observed=[r2["observed"]], fetch=r2["fetch"]), 0)
+            if a2 is None:
+                return None
+            terms.append(vault_terms(*a2)[0])
+        return " && ".join(terms)
     if c["op"] == "data":
         return data_term(c, o)
     return None
@@ -699,7 +766,7 @@ def nontrivial(c, o):
         return None
     if c["op"] == "vault_kad":
         return ("kad", tuple((e["e"], e.get("rec")) for e in c["events"]), o["fetch"]["res"], o["fetch"].get("code"),
-                tuple(ob["t"] for ob in o.get("observed", [])))
+                tuple(ob["t"] for ob in o.get("observed", [])), bool(o.get("reader2")))
     if c["op"] == "chunk_get":
         return (c["kind"], o["res"], o.get("code"))
     if c["op"] == "vault":
@@ -743,6 +810,18 @@ def run(ctx):
         "translator tools/extract_consts.py: RecordKind wire tags of Chunk / Scratchpad, RecordHeader::SIZE",
         "harness/crates/c15 (Rust driver, serde mirror of Scratchpad for forged pads), tools/props/C15.py"])
     cases = ctx.corpus() + ([] if ctx.replay else gen(ctx))
+    cases_small = [c for c in cases if c.get("build") == "small"]
+    cases = [c for c in cases if c.get("build") != "small"]
+    if not ctx.replay:
+        cases_small += gen_repeated(ctx.rng, ctx.tier, "small")
     pipeline_retry(ctx, "props/C15.v", cases, binary, oracle, model_term, IMPORTS, nontrivial=nontrivial, show=show,
                  relation="Client::{chunk_get, fetch_and_decrypt_vault, get_or_create_scratchpad, data_get, data_get_public} "
                           "== ClientRead.{chunk_get, fetch_and_decrypt_vault, get_vault} / SelfEnc shadow read")
+    if cases_small and binary:
+        # whole-data reads of repeated chunk-aligned blocks need a run of >= 4 equal chunks in the large-file regime:
+        # the MAX_CHUNK_SIZE=1024 build of the same harness (shared with C14)
+        from props.C14 import build_small
+        small = build_small(ctx)
+        if small:
+            pipeline_retry(ctx, "props/C15.v", cases_small, small, oracle, model_term, IMPORTS, nontrivial=nontrivial, show=show,
+                           relation="Client::{data_get, data_get_public} == SelfEnc shadow read [MAX_CHUNK_SIZE=1024 build]")
